@@ -308,9 +308,9 @@ theorem potential_pollTask (P : Params) (hC : 1 ≤ P.C) (e : Entry) (s : St) :
     · rename_i hd
       have hT : TaskAt s e.idx tk.prog := ⟨tk, h, rfl, by simpa using hd⟩
       split
-      · have := potential_runProg e.kind e.idx tk.prog P.C e.ready e.origin s hT
+      · have := potential_runProg tk.kind e.idx tk.prog P.C e.ready e.origin s hT
         omega
-      · have := potential_runProg e.kind e.idx tk.prog P.C s.now s.phase
+      · have := potential_runProg tk.kind e.idx tk.prog P.C s.now s.phase
           (logAt (markPolled s e.idx) e.idx e.ready e.origin) (taskAt_markPolled s e.idx _ hT)
         rw [potential_logAt, potential_markPolled] at this
         omega
@@ -328,6 +328,8 @@ theorem potential_step (P : Params) (hC : 1 ≤ P.C) (q : Kind) (s : St) (x : En
   rw [h]
   have h1 := potential_pollTask P hC e s'
   have h2 := potential_pop P q s s' e h
+  have h3 : potential (noteSilent s' (pollTask P e s')) = potential (pollTask P e s') := by
+    rcases noteSilent_eq s' (pollTask P e s') with h | h <;> rw [h] <;> rfl
   simp only
   omega
 
